@@ -1,7 +1,7 @@
 (* C18 — Hex helpers are mutually inverse and reject malformed text without panic.
    Statements only; proofs live in Proofs/HexProofs.v.  Strings are UTF-8 byte lists;
    unhexify returns Ok (Some bytes) | Ok None (= Err(ParseIntError)) | Panic. *)
-From BP7 Require Import Base.Prelude Model.Hex Proofs.HexProofs Proofs.TableProofs.
+From BP7 Require Import Base.Prelude Model.Hex Proofs.HexProofs Proofs.TieBase Proofs.TieHex.
 
 Theorem C18_unhex_hex : forall bs : list byte, unhexify (hexify bs) = Ok (Some bs).
 Proof. exact unhex_hex. Qed.
@@ -18,7 +18,7 @@ Proof. exact unhex_rejects. Qed.
 Theorem C18_total : forall s : list byte, no_panic (unhexify s).
 Proof. exact unhex_total. Qed.
 
-(* the exhaustive tie (Gen/Tables.v is rewritten from the compiled crate on every run): on EVERY single byte the library's hexify,
+(* the exhaustive tie (Gen/Tbl_<NAME>.v is rewritten from the compiled crate on every run): on EVERY single byte the library's hexify,
    and on EVERY string of two ASCII characters the library's unhexify, answer what the model answers - all 256 + 16384 rows checked
    by the kernel.  (hexify works byte by byte and unhexify pair by pair in the model: hexify_app / the pair loop of Model/Hex.v) *)
 Theorem C18_tie_hexify : forall b, b < 256 -> code_hexify b = hexify [n2b b].
